@@ -175,6 +175,8 @@ type Cluster struct {
 	// gossip withheld from a node (HoldGossipFor), in arrival order
 	held        map[uint64][][]byte
 	unreachKind int64
+	// replies still to be lost per callee (LoseReplies)
+	loseReply map[uint64]int
 	// every gossip payload the pump has handed out, in order
 	gossipLog [][]byte
 }
@@ -276,7 +278,20 @@ func (t nodeTransport) call(id uint64, f func(*grpc.ClientConn) error) error {
 		t.from.conns[id] = conn
 	}
 	t.from.connMu.Unlock()
-	return f(conn)
+	err := f(conn)
+	if err == nil {
+		t.c.mu.Lock()
+		lose := t.c.loseReply[id] > 0
+		if lose {
+			t.c.loseReply[id]--
+		}
+		t.c.mu.Unlock()
+		if lose {
+			// the peer executed the request; its answer never arrives
+			return errors.New("rpc error: code = Unavailable desc = transport is closing (reply lost, injected)")
+		}
+	}
+	return err
 }
 
 // AddNode assembles a node exactly as cmd/wasp/main.go does and starts it.
@@ -452,6 +467,17 @@ func (c *Cluster) nodesSnapshot() []*Node {
 		}
 	}
 	return out
+}
+
+// LoseReplies makes the next n successful calls to node id fail at the caller after the
+// callee has executed them (the reply is lost).
+func (c *Cluster) LoseReplies(id uint64, n int) {
+	c.mu.Lock()
+	if c.loseReply == nil {
+		c.loseReply = map[uint64]int{}
+	}
+	c.loseReply[id] = n
+	c.mu.Unlock()
 }
 
 func (c *Cluster) SetUnreachable(id uint64, v bool) {
